@@ -714,3 +714,38 @@ GROUPS["g22"] = [
     E("c19-context-skipped-no-default", ["C19"], "harper-stats/src/record.rs",
       "        context: Vec<FatStringToken>,", "        #[serde(skip_serializing_if = \"Vec::is_empty\")]\n        context: Vec<FatStringToken>,", "R-C19-serde:Record:RecordKind"),
 ]
+
+# C11 gate read through a helper closure.  g23: a consuming search on a shared cursor (the shape of seeded/C11-d);
+# p11: the same plumbing with a keyed lookup (correct; the gate rule leaves it undecided, silently).
+_LG = "harper-core/src/linting/lint_group.rs"
+_LG_HELPER_AT = "    /// Clear all config options.\n    /// This will reset them all to disabled.\n    pub fn clear(&mut self) {"
+_LG_BAD = "    fn ordered_switches(&self) -> impl FnMut(&str) -> bool + '_ {\n        let mut entries = self.inner.iter();\n\n        move |key| {\n            entries\n                .by_ref()\n                .find(|(name, _)| name.as_str() >= key)\n                .is_some_and(|(name, val)| name == key && val.unwrap_or(false))\n        }\n    }\n\n"
+_LG_GOOD = "    fn ordered_switches(&self) -> impl FnMut(&str) -> bool + '_ {\n        let entries = &self.inner;\n\n        move |key| entries.get(key).copied().flatten().unwrap_or(false)\n    }\n\n"
+_LG_SITE1 = ("        // Normal linters\n        for (key, linter) in &mut self.linters {\n            if self.config.is_rule_enabled(key) {",
+             "        // Normal linters\n        let mut is_enabled = self.config.ordered_switches();\n        for (key, linter) in &mut self.linters {\n            if is_enabled(key) {")
+_LG_SITE2 = ("                for (key, linter) in &mut self.pattern_linters {\n                    if self.config.is_rule_enabled(key) {",
+             "                let mut is_enabled = self.config.ordered_switches();\n                for (key, linter) in &mut self.pattern_linters {\n                    if is_enabled(key) {")
+GROUPS["g23"] = [
+    E("c11-gate-consuming-cursor", ["C11"], _LG, _LG_HELPER_AT, _LG_BAD + _LG_HELPER_AT, "R-C11-gate:LintGroup::lint"),
+    E("c11-gate-consuming-cursor-site1", ["C11"], _LG, _LG_SITE1[0], _LG_SITE1[1], None),
+    E("c11-gate-consuming-cursor-site2", ["C11"], _LG, _LG_SITE2[0], _LG_SITE2[1], None),
+]
+GROUPS["p11"] = [
+    E("p-c11-gate-through-closure", ["C11"], _LG, _LG_HELPER_AT, _LG_GOOD + _LG_HELPER_AT, None),
+    E("p-c11-gate-through-closure-site1", ["C11"], _LG, _LG_SITE1[0], _LG_SITE1[1], None),
+    E("p-c11-gate-through-closure-site2", ["C11"], _LG, _LG_SITE2[0], _LG_SITE2[1], None),
+]
+
+# C10: the file-dictionary path answered from a memo (the shape of seeded/C10-d) / computed into a local first (same behaviour)
+GROUPS["g23"] += [
+    E("c10-file-dict-path-memo", ["C10"], "harper-ls/src/backend.rs",
+      "        Ok(config.file_dict_path.join(file_dict_name(url)?))",
+      "        static FIRST: std::sync::OnceLock<PathBuf> = std::sync::OnceLock::new();\n        let name = file_dict_name(url)?;\n        Ok(FIRST.get_or_init(|| config.file_dict_path.join(name)).clone())",
+      "R-C10-files:path:get_file_dict_path:only-from-config"),
+]
+GROUPS["p11"] += [
+    E("p-c10-file-dict-path-local", ["C10"], "harper-ls/src/backend.rs",
+      "        Ok(config.file_dict_path.join(file_dict_name(url)?))",
+      "        let name = file_dict_name(url)?;\n        let path = config.file_dict_path.join(name);\n        Ok(path.clone())",
+      None),
+]
